@@ -26,6 +26,7 @@
 #include "numeric.h"
 #include "tensor.h"
 #include "vector.h"
+#include "verif_hooks.h"
 
 
 void NewCPCAModel(CPCAMODEL **m){
@@ -272,6 +273,7 @@ void CPCA(tensor *x, int scaling, size_t npc, CPCAMODEL *model)
       MT_MatrixDVectorDotProduct(T, w_T, t_new);
      
       /* check for convergence */
+      VERIF_ITER("CPCA", pc, mod_t, DVectorDVectorDotProd(w_T, w_T), calcConvergence(t_new, t));
       if(calcConvergence(t_new, t) < CPCACONVERGENCE){
         #ifdef DEBUG
         printf("new score calculated\n");
